@@ -45,7 +45,7 @@ func (ft *funcTrans) termOf(v ssa.Value) Term {
 	if x.Bad != "" {
 		panic(unsupportedErr("use of unsupported value " + v.Name() + ": " + x.Bad))
 	}
-	if x.L != nil {
+	if x.L != nil && !x.Opaque {
 		panic(unsupportedErr("interior pointer " + v.Name() + " used as a value"))
 	}
 	if x.Tup != nil {
@@ -310,7 +310,15 @@ func (ft *funcTrans) instr(in ssa.Instruction) {
 			return
 		}
 		ft.panicCheck("nilderef", fmt.Sprintf("(not (= %s 0))", base.T.S), x.Pos())
-		ft.vals[x] = &Val{L: &Loc{Kind: LField, Base: base.T.S, Heap: w.fieldHeap(ss, fi), Root: fi.Sort, Sort: fi.Sort}}
+		v := &Val{L: &Loc{Kind: LField, Base: base.T.S, Heap: w.fieldHeap(ss, fi), Root: fi.Sort, Sort: fi.Sort}}
+		if nt, ok := fi.Go.(*types.Named); ok && nt.Obj().Pkg() != nil && !strings.HasPrefix(nt.Obj().Pkg().Path(), modPath) {
+			// address of a field holding an opaque struct of another package (e.g. sync.WaitGroup):
+			// usable as an argument of calls; never dereferenced by the verified code
+			w.declFun("faddr", []string{"Int", "Int"}, "Int")
+			v.T = Term{fmt.Sprintf("(faddr %s %d)", base.T.S, x.Field), w.sortOf(x.Type())}
+			v.Opaque = true
+		}
+		ft.vals[x] = v
 	case *ssa.IndexAddr:
 		idx := w.toIdx(ft.termOf(x.Index))
 		switch xt := x.X.Type().Underlying().(type) {
@@ -558,6 +566,14 @@ func (ft *funcTrans) unop(x *ssa.UnOp) {
 	w := ft.w
 	switch x.Op {
 	case token.MUL:
+		if al, ok := x.X.(*ssa.Alloc); ok {
+			if v, isConst := constCellValue(al); isConst {
+				// a variable that is written once (its initial value) and then only read,
+				// by this function and by the closures that capture it
+				ft.define(x, ft.termOf(v))
+				return
+			}
+		}
 		l := ft.locOfPointer(x.X)
 		if l.Kind == LObj || l.Kind == LCell || l.Kind == LArr {
 			ft.panicCheck("nilderef", fmt.Sprintf("(not (= %s 0))", l.Base), x.Pos())
@@ -620,6 +636,19 @@ func (ft *funcTrans) binop(x *ssa.BinOp) {
 		} else {
 			ft.define(x, Term{"(not " + eq + ")", sortBool})
 		}
+		return
+	}
+	if (x.Op == token.EQL || x.Op == token.NEQ) && a.Sort.Kind == KSlice {
+		// a slice can only be compared with nil: nil-ness is the absence of a backing array
+		other := a
+		if c, ok := x.X.(*ssa.Const); ok && c.Value == nil {
+			other = b
+		}
+		eq := fmt.Sprintf("(= (s-arr %s) 0)", other.S)
+		if x.Op == token.NEQ {
+			eq = "(not " + eq + ")"
+		}
+		ft.define(x, Term{eq, sortBool})
 		return
 	}
 	switch x.Op {
@@ -830,4 +859,64 @@ func (ft *funcTrans) sendSiteOrdinal(pos token.Pos) int {
 		}
 	}
 	return 0
+}
+
+// constCellValue: if the Alloc holds a variable that is stored exactly once
+// (in the function's entry block) and otherwise only loaded -- also inside
+// every closure that captures it -- return the stored value.
+func constCellValue(al *ssa.Alloc) (ssa.Value, bool) {
+	var stored ssa.Value
+	refs := al.Referrers()
+	if refs == nil {
+		return nil, false
+	}
+	for _, r := range *refs {
+		switch x := r.(type) {
+		case *ssa.Store:
+			if x.Addr != al || stored != nil || x.Block() != al.Parent().Blocks[0] {
+				return nil, false
+			}
+			stored = x.Val
+		case *ssa.UnOp:
+		case *ssa.DebugRef:
+		case *ssa.MakeClosure:
+			fn := x.Fn.(*ssa.Function)
+			for i, b := range x.Bindings {
+				if b == al && !freeVarReadOnly(fn, fn.FreeVars[i], 0) {
+					return nil, false
+				}
+			}
+		default:
+			return nil, false
+		}
+	}
+	if stored == nil {
+		return nil, false
+	}
+	switch stored.(type) {
+	case *ssa.Parameter, *ssa.Const:
+		return stored, true
+	}
+	return nil, false
+}
+
+func freeVarReadOnly(fn *ssa.Function, fv *ssa.FreeVar, depth int) bool {
+	if depth > 4 || fv.Referrers() == nil {
+		return false
+	}
+	for _, r := range *fv.Referrers() {
+		switch x := r.(type) {
+		case *ssa.UnOp, *ssa.DebugRef:
+		case *ssa.MakeClosure:
+			inner := x.Fn.(*ssa.Function)
+			for i, b := range x.Bindings {
+				if b == fv && !freeVarReadOnly(inner, inner.FreeVars[i], depth+1) {
+					return false
+				}
+			}
+		default:
+			return false
+		}
+	}
+	return true
 }
